@@ -56,6 +56,14 @@ def mul (x y : Nat) : Nat :=
     let (a, b) := val x; let (c, d) := val y
     rne (a * c) (b * d)
 
+/-- IEEE division of two non-negative, non-NaN doubles (`x / 0 = inf`, `x / inf = 0`) -/
+def div (x y : Nat) : Nat :=
+  if x == inf then inf
+  else if y == inf then 0
+  else
+    let (a, b) := val x; let (c, d) := val y
+    if c == 0 then inf else rne (a * d) (b * c)
+
 def one : Nat := 0x3FF0000000000000
 def ten : Nat := 0x4024000000000000
 
@@ -92,6 +100,16 @@ def floorU64 (bits : Nat) : Nat :=
     integer, the product one IEEE multiplication (this is what `toF64` uses; `digitCountF64` is the same
     computation on Lean's hardware doubles and is compared with it on every driver case) -/
 def digitCount (bits : Nat) : Nat := floorU64 (mul (ofNat (bits + 1)) log10_2)
+
+/-- `f64::consts::LOG2_10` -/
+def log2_10 : Nat := 0x400A934F0979A371
+
+/-- `(bits as f64 / LOG2_10) as u64`: the digit estimate of `count_decimal_digits_uint` and
+    `get_rounding_term` -/
+def estCode (bits : Nat) : Nat := floorU64 (div (ofNat bits) log2_10)
+
+/-- `(LOG2_10 * scale as f64) as u64`: the bit estimate of `highest_bit_lessthan_scaled` -/
+def preCode (k : Nat) : Nat := floorU64 (mul log2_10 (ofNat k))
 
 /-- the same estimate in exact integer arithmetic: `floor((bits + 1) · log10 2)` with `log10 2` to 36
     places (the `f64` product can differ from it only when it lands within an ulp of an integer) -/
